@@ -146,6 +146,52 @@ func VerifC06NodeAddr(c Cache, key string) string {
 	panic("verif: unknown Cache implementation")
 }
 
+// VerifC06Options turns the section's `exp=` / `nf=` values into the options the cache is built with:
+// "-" = the option is not given at all, otherwise WithExpiry / WithNotFoundExpiry with that many milliseconds
+// (any integer: zero, negative, sub-second, very large).
+func VerifC06Options(exp, nf string) []Option {
+	var opts []Option
+	if exp != "-" {
+		ms, err := strconv.ParseInt(exp, 10, 64)
+		if err != nil {
+			panic("bad exp= in section cfg: " + exp)
+		}
+		opts = append(opts, WithExpiry(time.Duration(ms)*time.Millisecond))
+	}
+	if nf != "-" {
+		ms, err := strconv.ParseInt(nf, 10, 64)
+		if err != nil {
+			panic("bad nf= in section cfg: " + nf)
+		}
+		opts = append(opts, WithNotFoundExpiry(time.Duration(ms)*time.Millisecond))
+	}
+	return opts
+}
+
+// The classes of option values the generators draw from (ms; "-" = not given): unset, zero, negative,
+// sub-second (1 ms .. 999 ms), around one second, fractional seconds, ordinary, very large (30 days + 7 ms,
+// 1 year + 1 ms: not multiples of 10 ms, so that the jittered duration is never within 100 ns of a whole
+// second and the float rounding of AroundDuration — up to ~10 ns at that size — cannot cross it).
+var (
+	VerifC06ExpValues = []string{"-", "0", "-1", "-5000", "1", "500", "999", "1000", "1001", "2500", "7000", "20000",
+		"60000", "31536000001"}
+	VerifC06NfValues = []string{"-", "0", "-1", "-60000", "1", "400", "999", "1000", "1500", "3000", "10000",
+		"2592000007"}
+)
+
+// VerifC06Effective is what newOptions is expected to make of an option value (ms): used by the generators
+// only to aim clock advances at the TTL boundaries.
+func VerifC06Effective(v string, dflt int64) int64 {
+	if v == "-" {
+		return dflt
+	}
+	ms, err := strconv.ParseInt(v, 10, 64)
+	if err != nil || ms <= 0 {
+		return dflt
+	}
+	return ms
+}
+
 // VerifC06Kind tells which implementation cache.New chose.
 func VerifC06Kind(c Cache) string {
 	switch c.(type) {
